@@ -37,6 +37,7 @@ ASSUMPTIONS = [
     'threadpoolctl.threadpool_limits(user_api="openmp") sets the libgomp team size used by prange '
     '(observed values recorded in the evidence)',
 ]
+MIRRORS = [('enspara/geometry/libdist.pyx', None), ('enspara/cluster/util.py', ['_get_distance_method'])]
 TRUSTED_EXTRA = ['Cython/gcc/libgomp compile the nogil prange bodies as written (the model is of the .pyx source; '
                  'the runs and, in the thorough tier, valgrind memcheck sample the compiled object)']
 
@@ -238,7 +239,9 @@ def build_view(rec, mem=None):
     v = mem[pad:pad + size].reshape(tuple(rec['shape']), order=rec.get('order', 'C'))
     idx = rec.get('index')
     if idx is not None:
-        v = v[tuple(slice(*t) for t in idx)]
+        v = v[tuple(t if isinstance(t, int) else slice(*t) for t in idx)]
+    if rec.get('broadcast_to') is not None:          # zero-stride (read-only) broadcast view
+        v = np.broadcast_to(v, tuple(rec['broadcast_to']))
     if rec.get('byteswap'):
         v = v.astype(v.dtype.newbyteorder('>'))
     if rec.get('readonly'):
@@ -292,17 +295,110 @@ def _fhex(a):
     return [float(x).hex() for x in a]
 
 
+def mem_snapshot(mem):
+    """exact JSON form of a flat memory"""
+    np = _np()
+    if mem.dtype.kind == 'f':
+        return [float(v).hex() for v in mem.tolist()]
+    if mem.dtype.kind == 'S':
+        return [int(v) for v in mem.view('int8')]
+    return [int(v) for v in mem.tolist()]
+
+
+def script_views(call, mems, cache=None):
+    """the three argument arrays of one call of a script, as views of the named memories"""
+    out = {}
+    for nm in ('X', 'y', 'out'):
+        rec = call.get(nm)
+        if rec is None:
+            out[nm] = None
+            continue
+        key = None
+        if cache is not None and call.get('reuse_objects'):
+            import json as _j
+            key = _j.dumps(rec, sort_keys=True)
+            if key in cache:
+                out[nm] = cache[key]
+                continue
+        _, v = build_view(rec, mem=mems[rec['mem']])
+        if key is not None:
+            cache[key] = v
+        out[nm] = v
+    return out
+
+
+def run_script(sp, libdist, ctl):
+    """a sequence of calls on shared named memories (aliasing, buffer reuse, call history)"""
+    np = _np()
+    mems = {k: build_mem(v) for k, v in sp['mems'].items()}
+    cache, calls, kept = {}, [], []
+    for call in sp['calls']:
+        r = {}
+        kept.append(None)
+        a = script_views(call, mems, cache)
+        if call.get('via_metric'):
+            from enspara.cluster.util import _get_distance_method
+            fn = _get_distance_method(call['via_metric'])
+            r['metric_is'] = [n for n in ('euclidean', 'manhattan', 'hamming') if fn is getattr(libdist, n)]
+        elif call.get('via_callable'):
+            from enspara.cluster.util import _get_distance_method
+            base = getattr(libdist, call['kernel'])
+            fn = _get_distance_method(base)
+            r['callable_passthrough'] = fn is base
+        else:
+            fn = getattr(libdist, call['kernel'])
+        with ctl.limit(limits=int(call.get('threads', 1)), user_api='openmp'):
+            try:
+                if a['out'] is None:
+                    ret = fn(a['X'], a['y'])
+                elif call.get('out_positional'):
+                    ret = fn(a['X'], a['y'], a['out'])
+                else:
+                    ret = fn(a['X'], a['y'], out=a['out'])
+                r['ret_type'] = type(ret).__name__
+                r['ret_dtype'] = str(getattr(ret, 'dtype', None))
+                r['ret_shape'] = [int(s) for s in getattr(ret, 'shape', ())]
+                r['ret'] = _fhex(np.asarray(ret, dtype=float).ravel())
+                if a['out'] is None:
+                    kept[-1] = ret          # a freshly allocated result belongs to the caller from now on
+                if a['out'] is not None:
+                    r['ret_is_out'] = ret is a['out']
+                    r['shares'] = bool(np.shares_memory(ret, a['out']))
+            except Exception as e:  # noqa
+                r['err'] = type(e).__name__
+                r['msg'] = str(e)[:200]
+        r['mems'] = {k: mem_snapshot(v) for k, v in mems.items()}
+        calls.append(r)
+    # results handed out earlier must not have been changed by later calls (no shared internal buffer)
+    for r, k in zip(calls, kept):
+        if k is not None:
+            r['ret_at_end'] = _fhex(np.asarray(k, dtype=float).ravel())
+    return {'calls': calls}
+
+
 def worker_main(path_in, path_out):
     import json
     import hashlib as _h
     np = _np()
     import threadpoolctl
     from enspara.geometry import libdist
-    with open(path_in) as f:
-        specs = [json.loads(l) for l in f if l.strip()]
+    import sys
+    if path_in == '-':
+        # persistent mode: one spec per stdin line, answered on stdout; the real stdout is kept for the
+        # protocol, anything the library prints goes to stderr
+        out = os.fdopen(os.dup(1), 'w')
+        os.dup2(2, 1)
+        specs = (json.loads(l) for l in sys.stdin if l.strip())
+        out.write(json.dumps({'ready': True}) + '\n')
+        out.flush()
+    else:
+        with open(path_in) as f:
+            specs = [json.loads(l) for l in f if l.strip()]
+        out = open(path_out, 'w')
     ctl = threadpoolctl.ThreadpoolController()
-    out = open(path_out, 'w')
+    n_done = 0
     for k, sp in enumerate(specs):
+        n_done += 1
         out.write(json.dumps({'begin': k}) + '\n')
         out.flush()
         res = {'i': k}
@@ -325,6 +421,11 @@ def worker_main(path_in, path_out):
                 out.write(json.dumps(res) + '\n')
                 out.flush()
                 continue
+            if sp.get('op') == 'script':
+                res.update(run_script(sp, libdist, ctl))
+                out.write(json.dumps(res) + '\n')
+                out.flush()
+                continue
             xm, X = build_view(sp['X'])
             ym, y = build_view(sp['y'])
             om = o = None
@@ -332,6 +433,16 @@ def worker_main(path_in, path_out):
                 om, o = build_view(sp['out'])
             xb, yb = xm.tobytes(), ym.tobytes()
             fn = getattr(libdist, sp['kernel'])
+            if sp['X'].get('as_list'):
+                X = X.tolist()
+            if sp['X'].get('as_tuple'):
+                X = tuple(map(tuple, X.tolist()))
+            if sp['X'].get('as_matrix'):
+                X = np.asmatrix(X)
+            if sp['y'].get('as_list'):
+                y = y.tolist()
+            if o is not None and sp['out'].get('as_list'):
+                o = o.tolist()
             sweep = sp.get('sweep') or [sp.get('threads', 1)]
             digests, ret = [], None
             for t in sweep:
@@ -361,7 +472,7 @@ def worker_main(path_in, path_out):
                 if o is not None:
                     res['ret_is_out'] = ret is o
                     res['shares'] = bool(np.shares_memory(ret, o))
-                    res['out_view'] = _fhex(o.ravel())
+                    res['out_view'] = _fhex(np.asarray(o, dtype=float).ravel())
                     res['out_mem'] = _fhex(om)
             res['x_same'] = xm.tobytes() == xb
             res['y_same'] = ym.tobytes() == yb
@@ -370,12 +481,78 @@ def worker_main(path_in, path_out):
             res['harness_error'] = traceback.format_exc()[-1500:]
         out.write(json.dumps(res) + '\n')
         out.flush()
-    out.write(json.dumps({'done': len(specs)}) + '\n')
+    out.write(json.dumps({'done': n_done}) + '\n')
     out.close()
 
 
+_WORKER = {'proc': None}
+
+
+def _worker_proc():
+    """the persistent process that runs the real code (started lazily, restarted after a crash)"""
+    import atexit
+    import json
+    import subprocess
+    import sys
+    import tempfile
+    p = _WORKER['proc']
+    if p is not None and p.poll() is None:
+        return p
+    env = dict(os.environ)
+    # idle OpenMP threads sleep instead of spinning: same semantics, and the run stays fast on a loaded machine
+    env.setdefault('OMP_WAIT_POLICY', 'passive')
+    errf = tempfile.TemporaryFile(mode='w+')
+    p = subprocess.Popen([sys.executable, os.path.abspath(__file__), '--worker', '-', '-'], stdin=subprocess.PIPE,
+                         stdout=subprocess.PIPE, stderr=errf, text=True, env=env, bufsize=1)
+    p._errf = errf
+    line = p.stdout.readline()
+    if not line or 'ready' not in line:
+        errf.seek(0)
+        raise RuntimeError('kernel worker did not start: ' + errf.read()[-1500:])
+    if _WORKER['proc'] is None:
+        atexit.register(lambda: _WORKER['proc'] and _WORKER['proc'].poll() is None and _WORKER['proc'].kill())
+    _WORKER['proc'] = p
+    return p
+
+
 def run_worker(specs, valgrind=False, timeout=1500):
-    """returns (results list aligned with specs (None = not reached), crash_info or None, extra)"""
+    """returns (results list aligned with specs (None = not reached), crash_info or None, extra).
+    Normal mode talks to the persistent worker process; valgrind mode runs a one-shot process on files."""
+    import json
+    if valgrind:
+        return _run_worker_files(specs, timeout)
+    results = [None] * len(specs)
+    crash = None
+    for k, sp in enumerate(specs):
+        p = _worker_proc()
+        try:
+            p.stdin.write(json.dumps(sp) + '\n')
+            p.stdin.flush()
+            got = None
+            while got is None:
+                line = p.stdout.readline()
+                if not line:
+                    break
+                try:
+                    j = json.loads(line)
+                except ValueError:
+                    continue
+                if 'i' in j:
+                    got = j
+        except (BrokenPipeError, OSError):
+            got = None
+        if got is None:
+            rc = p.wait()
+            p._errf.seek(0)
+            crash = {'returncode': rc, 'case_index': k, 'stderr': p._errf.read()[-600:]}
+            _WORKER['proc'] = None
+            break           # the remaining specs are not run (results None); the caller reports the crash
+        got['i'] = k
+        results[k] = got
+    return results, crash, {}
+
+
+def _run_worker_files(specs, timeout):
     import json
     import subprocess
     import sys
@@ -385,17 +562,12 @@ def run_worker(specs, valgrind=False, timeout=1500):
     with open(pin, 'w') as f:
         for sp in specs:
             f.write(json.dumps(sp) + '\n')
-    cmd = [sys.executable, os.path.abspath(__file__), '--worker', pin, pout]
     env = dict(os.environ)
-    # idle OpenMP threads sleep instead of spinning: same semantics, and the run stays fast on a loaded machine
     env.setdefault('OMP_WAIT_POLICY', 'passive')
-    extra = {}
-    if valgrind:
-        vlog = os.path.join(d, 'valgrind.log')
-        cmd = ['valgrind', '--tool=memcheck', '--leak-check=no', '--error-limit=no', '--num-callers=30',
-               '--log-file=' + vlog] + cmd
-        env['PYTHONMALLOC'] = 'malloc'
-        extra['vlog'] = vlog
+    env['PYTHONMALLOC'] = 'malloc'
+    vlog = os.path.join(d, 'valgrind.log')
+    cmd = ['valgrind', '--tool=memcheck', '--leak-check=no', '--error-limit=no', '--num-callers=30',
+           '--log-file=' + vlog, sys.executable, os.path.abspath(__file__), '--worker', pin, pout]
     r = subprocess.run(cmd, capture_output=True, text=True, env=env, timeout=timeout)
     results = [None] * len(specs)
     begun, done = -1, False
@@ -415,8 +587,7 @@ def run_worker(specs, valgrind=False, timeout=1500):
     crash = None
     if r.returncode != 0 or not done:
         crash = {'returncode': r.returncode, 'case_index': begun, 'stderr': r.stderr[-600:]}
-    extra['dir'] = d
-    return results, crash, extra
+    return results, crash, {'vlog': vlog, 'dir': d}
 
 
 # ----------------------------------------------------------------------------------------
@@ -427,7 +598,8 @@ def _repr_ok(fr, fmt):
     np = _np()
     try:
         if fmt == 'float32':
-            return Fraction(float(np.float32(float(fr)))) == fr
+            with np.errstate(over='ignore'):
+                return Fraction(float(np.float32(float(fr)))) == fr
         return Fraction(float(fr)) == fr
     except OverflowError:
         return False
@@ -444,13 +616,29 @@ def row_oracle(kernel, dtype, xs, ys):
         cnt = sum(1 for a, b in zip(xs, ys) if a != b)
         return {'kind': 'val', 'q': Fraction(cnt, w), 'exact': True, 'overflow': False, 'div': (cnt, w)}
     isf = dtype in FLOATS
-    total, exact, overflow = Fraction(0), True, False
+    if isf and any(isinstance(v, float) for v in list(xs) + list(ys)):
+        # NaN / +-inf among the inputs: the norm is not defined (outside the property); row skipped
+        return {'kind': 'undefined', 'q': None, 'exact': True, 'overflow': False, 'nonfinite': True}
+    total, exact, overflow, in_range = Fraction(0), True, False, True
     bits = PROMO_BITS.get(dtype)
+    # conservative float thresholds: |d| (and, for euclidean, d*d) must be a normal number of the element format
+    dlo, dhi = {'float32': (1.2e-38, 3.4e38), 'float64': (2.3e-308, 1.7e308)}.get(dtype, (0, 0))
+    if kernel == 'euclidean':
+        dlo, dhi = {'float32': (1.1e-19, 1.8e19), 'float64': (1.5e-154, 1.3e154)}.get(dtype, (0, 0))
     for a, b in zip(xs, ys):
         d = a - b
         t = d * d if kernel == 'euclidean' else abs(d)
         if isf:
-            if not _repr_ok(d, dtype) or not _repr_ok(t, dtype if kernel == 'euclidean' else 'float64'):
+            # the difference is formed in the element format; the square in it too (powf / pow)
+            tf = dtype if kernel == 'euclidean' else 'float64'
+            if d != 0:
+                try:
+                    fa = abs(float(d))
+                except OverflowError:
+                    fa = float('inf')
+                if not (dlo <= fa <= dhi):
+                    in_range = False
+            if exact and (not _repr_ok(d, dtype) or not _repr_ok(t, tf)):
                 exact = False
         else:
             if not (-2 ** (bits - 1) <= d < 2 ** (bits - 1)):
@@ -461,16 +649,27 @@ def row_oracle(kernel, dtype, xs, ys):
                 exact = False
         total += t
         if isf:
-            if not _repr_ok(total, 'float64'):
+            if exact and not _repr_ok(total, 'float64'):
                 exact = False
         elif total >= 2 ** 53:
             exact = False
-    return {'kind': 'sqrt' if kernel == 'euclidean' else 'val', 'q': total, 'exact': exact, 'overflow': overflow}
+    if isf and total >= Fraction(2) ** 1023:
+        in_range = False
+    return {'kind': 'sqrt' if kernel == 'euclidean' else 'val', 'q': total, 'exact': exact, 'overflow': overflow,
+            'in_range': in_range}
 
 
 def _sqrt_exact(q):
     """correctly rounded sqrt of an exactly representable rational (math.sqrt is IEEE sqrt)"""
     return math.sqrt(float(q))
+
+
+def _rel_close(real, ref, tol):
+    """relative to the natural scale: the reference is a sum of non-negative terms (or its root), so the
+    rounding error of the float evaluation is relative to the value itself; an exact zero must be zero"""
+    if ref == 0:
+        return real == 0
+    return abs(real - ref) <= tol * abs(ref)
 
 
 def value_matches(kind, q, exact, real, tol, div=None):
@@ -479,19 +678,20 @@ def value_matches(kind, q, exact, real, tol, div=None):
         return True
     if real != real or real in (float('inf'), float('-inf')):
         return False
-    if kind == 'val':
+    try:
+        if kind == 'val':
+            if exact:
+                ref = (div[0] / div[1]) if div else float(q)
+                return real == ref
+            return _rel_close(real, float(q), tol)
+        # sqrt
+        if q < 0:
+            return False
         if exact:
-            ref = (div[0] / div[1]) if div else float(q)
-            return real == ref
-        ref = float(q)
-        return abs(real - ref) <= tol * max(1.0, abs(ref))
-    # sqrt
-    if q < 0:
+            return real == _sqrt_exact(q)
+        return _rel_close(real, math.sqrt(q), tol)
+    except OverflowError:
         return False
-    if exact:
-        return real == _sqrt_exact(q)
-    ref = math.sqrt(q) if q < 2 ** 1000 else float('inf')
-    return abs(real - ref) <= tol * max(1.0, abs(ref))
 
 
 def tol_for(dtype):
@@ -537,6 +737,40 @@ def gen_values(rng, dtype, vclass, n, w):
         elif vclass == 'mid':      # exact in float32 too: |d| <= 4094, d*d < 2**24
             X = [float(v) for v in rng.integers(-2047, 2048, size=n * w)]
             y = [float(v) for v in rng.integers(-2047, 2048, size=w)]
+        elif vclass in ('scale-in-range', 'scale-out-of-range'):
+            # huge / tiny magnitudes: squares stay inside (resp. leave) the range of the element format
+            f32 = dtype == 'float32'
+            if vclass == 'scale-in-range':
+                e = int(rng.choice([-15, 15] if f32 else [-150, -9, 9, 149]))
+            else:
+                e = int(rng.choice([-25, 25] if f32 else [-300, -200, 200, 300]))
+            sc = 10.0 ** e
+            X = [float(np.dtype(dtype).type(v * sc)) for v in rng.uniform(1, 9, size=n * w) * rng.choice([-1, 1], size=n * w)]
+            y = [float(np.dtype(dtype).type(v * sc)) for v in rng.uniform(1, 9, size=w) * rng.choice([-1, 1], size=w)]
+        elif vclass == 'ulp':           # coordinates that differ from y by 0, 1 or 2 ulp; signed zeros
+            tp = np.dtype(dtype).type
+            y = [float(tp(v)) for v in rng.choice([1.0, -3.5, 1e10, 0.1, -0.0, 0.0, 1e-30], size=w)]
+            X = []
+            for i in range(n):
+                for j in range(w):
+                    v = tp(y[j])
+                    for _ in range(int(rng.integers(0, 3))):
+                        v = np.nextafter(v, tp(np.inf if rng.random() < 0.5 else -np.inf))
+                    if v == 0 and rng.random() < 0.5:
+                        v = -v
+                    X.append(float(v))
+        elif vclass == 'nonfinite':     # NaN / inf in some rows of X only: the other rows must be unaffected
+            X = [float(v) for v in rng.integers(-20, 21, size=n * w)]
+            y = [float(v) for v in rng.integers(-20, 21, size=w)]
+            for i in range(0, n, 2):
+                if w:
+                    X[i * w + int(rng.integers(0, w))] = [float('nan'), float('inf'), float('-inf')][int(rng.integers(0, 3))]
+        elif vclass == 'equal-to-y':
+            y = [float(v) / 4 for v in rng.integers(-200, 201, size=w)]
+            X = [y[j] for i in range(n) for j in range(w)]
+            for i in range(1, n, 3):       # every third row differs in one coordinate
+                if w:
+                    X[i * w + int(rng.integers(0, w))] += 1.0
         else:                       # 'general': arbitrary finite values -> tolerance regime
             sc = float(10.0 ** rng.integers(-3, 4))
             X = [float(np.dtype(dtype).type(v)) for v in rng.normal(0, sc, size=n * w)]
@@ -554,6 +788,16 @@ def gen_values(rng, dtype, vclass, n, w):
                 X[k] = lo if rng.random() < 0.5 else hi
             for k in range(0, len(y), 2):
                 y[k] = lo if rng.random() < 0.5 else hi
+        elif vclass == 'equal-to-y':
+            a, b = max(lo, -20), min(hi, 20)
+            if dtype == 'S1':
+                a, b = 48, 90
+            y = ints(a, b, w)
+            X = [y[j] for i in range(n) for j in range(w)]
+            for i in range(1, n, 3):
+                if w:
+                    k = i * w + int(rng.integers(0, w))
+                    X[k] = X[k] + 1 if X[k] < b else X[k] - 1
         elif vclass == 'big-same-sign':   # huge magnitude, small differences: exact in the integer path
             span = min(900, (hi - lo) // 8)
             base = hi - span if (rng.random() < 0.5 or lo == 0) else lo + span
@@ -687,30 +931,40 @@ def make_valid_case(rng, kernel, dtype, xl, yl, om, vclass, n, w, threads):
         orr['dtype'] = 'float64'
         orr['mem'] = enc_vals(garbage(rng, total), 'float64')
         spec['out'] = orr
+    if rng.random() < 0.12:
+        xr['readonly'] = True
+    if rng.random() < 0.12:
+        yr['readonly'] = True
+    if rng.random() < 0.06 and dtype not in ('S1', 'bool'):
+        xr['as_matrix'] = True
     nsteps = n * (w + 2)
     spec['sched'] = [int(v) for v in rng.integers(0, max(1, n), size=int(rng.integers(0, nsteps + 1)))]
     return spec
 
 
-def model_request(spec):
-    """descriptor of the very arrays the worker builds, for the Lean model"""
-    xm, X = build_view(spec['X'])
-    ym, y = build_view(spec['y'])
-    dt = spec['X']['dtype']
-    isf = dt in FLOATS
+def _enc_mem(mem):
+    if mem.dtype.kind == 'f':
+        return [[Fraction(float(v)).numerator, Fraction(float(v)).denominator] for v in mem.tolist()]
+    if mem.dtype.kind == 'S':
+        return [int(v) for v in mem.view('int8')]
+    return [int(v) for v in mem.tolist()]
 
-    def enc(mem, d):
-        if d in FLOATS:
-            return [[Fraction(float(v)).numerator, Fraction(float(v)).denominator] for v in mem.tolist()]
-        if d == 'S1':
-            return [int(v) for v in mem.view('int8')]
-        return [int(v) for v in mem.tolist()]
-    req = {'op': 'C13.call', 'kernel': spec['kernel'], 'elem': 'rat' if isf else 'int',
-           'X': dict(descriptor(xm, X), dtype=model_dtype_name(X.dtype), buf=enc(xm, dt)),
-           'y': dict(descriptor(ym, y), dtype=model_dtype_name(y.dtype), buf=enc(ym, spec['y']['dtype'])),
-           'sched': spec.get('sched', [])}
-    if spec.get('out') is not None:
-        om, o = build_view(spec['out'])
+
+def _finite_mem(mem):
+    np = _np()
+    return mem.dtype.kind != 'f' or bool(np.isfinite(mem).all())
+
+
+def model_request_arrays(kernel, xm, X, ym, y, om, o, sched):
+    """descriptor of the very arrays the real code receives, for the Lean model; None when the model has
+    no value for the data (NaN / inf inputs: exact rationals only)"""
+    if not (_finite_mem(xm) and _finite_mem(ym)):
+        return None
+    req = {'op': 'C13.call', 'kernel': kernel, 'elem': 'rat' if X.dtype.kind == 'f' else 'int',
+           'X': dict(descriptor(xm, X), dtype=model_dtype_name(X.dtype), buf=_enc_mem(xm)),
+           'y': dict(descriptor(ym, y), dtype=model_dtype_name(y.dtype), buf=_enc_mem(ym)),
+           'sched': sched or []}
+    if o is not None:
         cells = []
         for v in om.tolist():
             if v != v:
@@ -725,14 +979,31 @@ def model_request(spec):
     return req
 
 
+def model_request(spec):
+    xm, X = build_view(spec['X'])
+    ym, y = build_view(spec['y'])
+    om = o = None
+    if spec.get('out') is not None:
+        om, o = build_view(spec['out'])
+    return model_request_arrays(spec['kernel'], xm, X, ym, y, om, o, spec.get('sched', []))
+
+
 def logical_of(spec):
     """the logical data (numpy's own reading of the views) as exact python numbers"""
     _, X = build_view(spec['X'])
     _, y = build_view(spec['y'])
-    dt = spec['X']['dtype']
-    if dt in FLOATS:
-        return [[Fraction(float(v)) for v in row] for row in X.tolist()], [Fraction(float(v)) for v in y.tolist()]
-    if dt == 'S1':
+    return logical_arrays(X, y)
+
+
+def _frac(v):
+    return Fraction(v) if math.isfinite(v) else float(v)
+
+
+def logical_arrays(X, y):
+    dt = X.dtype
+    if dt.kind == 'f':
+        return [[_frac(float(v)) for v in row] for row in X.tolist()], [_frac(float(v)) for v in y.tolist()]
+    if dt.kind == 'S':
         return [[int(v) for v in row] for row in X.view('int8').tolist()], [int(v) for v in y.view('int8').tolist()]
     return [[int(v) for v in row] for row in X.tolist()], [int(v) for v in y.tolist()]
 
@@ -766,6 +1037,9 @@ def check_valid(ctx, spec, wres, mres, record=True):
                        'threads=%d' % spec.get('threads', 1),
                        'n=0' if n == 0 else ('n=1' if n == 1 else 'n>1'),
                        'w=0' if w == 0 else ('w=1' if w == 1 else 'w>1'),
+                       ] + (['X=read-only'] if spec['X'].get('readonly') else []) +
+                      (['y=read-only'] if spec['y'].get('readonly') else []) +
+                      (['X=np.matrix'] if spec['X'].get('as_matrix') else []) + [
                        'regime=' + ('overflow' if any_over else
                                     ('exact' if all(o['exact'] for o in oracles) else 'rounded'))])
     rp = {k: spec[k] for k in ('kernel', 'X', 'y', 'out', 'threads', 'sched', 'tags') if k in spec}
@@ -785,7 +1059,16 @@ def check_valid(ctx, spec, wres, mres, record=True):
     ret = _unhex(wres['ret'])
     # --- predicate: per row the norm / fraction
     known, bad = [], []
+    unjudged = set()
     for i, (o, r) in enumerate(zip(oracles, ret)):
+        if o.get('nonfinite'):
+            unjudged.add(i)
+            ctx.tag('row-with-nan-or-inf-not-judged')
+            continue
+        if o.get('in_range') is False:
+            unjudged.add(i)
+            ctx.skip('float difference/square outside the range of the element format: row not judged')
+            continue
         if not value_matches(o['kind'], o['q'], o['exact'], r, tol, o.get('div')):
             (known if o['overflow'] else bad).append(i)
     if bad:
@@ -838,6 +1121,8 @@ def check_valid(ctx, spec, wres, mres, record=True):
         return
     for i in range(n):
         o = oracles[i]
+        if i in unjudged:
+            continue
         if o['overflow'] and i not in known:
             continue        # real code exact where the wrap-around model is not: see ASSUMPTIONS
         ok = cell_matches_model(m['values'][i], ret[i], o['exact'], tol, o.get('div'))
@@ -922,6 +1207,16 @@ def malformed_cases(rng, thorough):
             others = [t for t in good if t != dt]
             dt2 = others[int(rng.integers(0, len(others)))]
             add('mixed-dtypes-y', kernel, _arr(dt, [n, w], rng), _arr(dt2, [w], rng))
+            add('X-is-list', kernel, dict(_arr(dt, [n, w], rng), as_list=True), _arr(dt, [w], rng), model=False)
+            add('X-is-tuple', kernel, dict(_arr(dt, [n, w], rng), as_tuple=True), _arr(dt, [w], rng), model=False)
+            add('y-is-list', kernel, _arr(dt, [n, w], rng), dict(_arr(dt, [w], rng), as_list=True), model=False)
+            add('out-is-list', kernel, _arr(dt, [n, w], rng), _arr(dt, [w], rng),
+                dict(_arr('float64', [n], rng), as_list=True), model=False)
+            add('byteswapped-out', kernel, _arr(dt, [n, w], rng), _arr(dt, [w], rng),
+                dict(_arr('float64', [n], rng), byteswap=True), model=False)
+            if dt not in ('int8', 'uint8'):
+                add('byteswapped-y', kernel, _arr(dt, [n, w], rng), dict(_arr(dt, [w], rng), byteswap=True),
+                    model=False)
             if dt not in ('int8', 'uint8'):      # one-byte types have no byte order
                 add('byteswapped-X', kernel, dict(_arr(dt, [n, w], rng), byteswap=True), _arr(dt, [w], rng),
                     model=False)
@@ -973,19 +1268,146 @@ def check_malformed(ctx, spec, wres, mres, record=True):
 
 
 # ----------------------------------------------------------------------------------------
+# scripts: several calls on shared named memories (aliasing, buffer reuse, call history)
+# ----------------------------------------------------------------------------------------
+
+def _mem_from_snapshot(dtype, snap):
+    return build_mem({'dtype': dtype, 'mem': snap})
+
+
+def script_prestates(sp, wres):
+    """memories as they were before each call (initial, then the worker's snapshot after the previous call)"""
+    states = [{k: build_mem(v) for k, v in sp['mems'].items()}]
+    for r in wres['calls'][:-1]:
+        states.append({k: _mem_from_snapshot(sp['mems'][k]['dtype'], v) for k, v in r['mems'].items()})
+    return states
+
+
+def script_model_requests(sp, wres):
+    reqs = []
+    if wres is None or 'calls' not in wres:
+        return [None] * len(sp['calls'])
+    for call, st in zip(sp['calls'], script_prestates(sp, wres)):
+        if call.get('overlap') or call.get('no_model'):
+            reqs.append(None)
+            continue
+        a = script_views(call, st)
+        o = a['out']
+        reqs.append(model_request_arrays(call['kernel'], st[call['X']['mem']], a['X'], st[call['y']['mem']], a['y'],
+                                         st[call['out']['mem']] if o is not None else None, o, call.get('sched')))
+    return reqs
+
+
+def check_script(ctx, sp, wres, mres_list, record=True):
+    np = _np()
+    fam = sp['family']
+    rp = {'script': True, 'op': 'script', 'family': fam, 'mems': sp['mems'], 'calls': sp['calls']}
+    if record:
+        ctx.case(rp, nontrivial=True, tags=['script=' + fam] + ['kernel=' + c['kernel'] for c in sp['calls'][:1]])
+    if wres is None:
+        ctx.violation('the process running the kernels died during the call sequence (%s)' % fam, rp)
+        return
+    if 'harness_error' in wres:
+        raise RuntimeError('worker could not run script: ' + wres['harness_error'])
+    states = script_prestates(sp, wres)
+    for ci, (call, r, st) in enumerate(zip(sp['calls'], wres['calls'], states)):
+        kernel = call['kernel']
+        dtype = sp['mems'][call['X']['mem']]['dtype']
+        a = script_views(call, st)
+        X, y, o = a['X'], a['y'], a['out']
+        rows, ys = logical_arrays(X, y)
+        n = len(rows)
+        where = '%s call %d (%s, %s)' % (fam, ci, kernel, dtype)
+        if 'err' in r:
+            ctx.violation('%s raised %s on valid input: %s' % (where, r['err'], r.get('msg', '')), dict(rp, call=ci))
+            return
+        if r['ret_dtype'] != 'float64' or r['ret_shape'] != [n] or r['ret_type'] != 'ndarray':
+            ctx.violation('%s returned %s %s of shape %s, not a float64 vector of length %d' % (
+                where, r['ret_type'], r['ret_dtype'], r['ret_shape'], n), dict(rp, call=ci))
+            return
+        if call.get('via_metric'):
+            want = 'manhattan' if call['via_metric'] == 'cityblock' else call['via_metric']
+            if r.get('metric_is') != [want]:
+                ctx.violation('_get_distance_method(%r) is not libdist.%s' % (call['via_metric'], want), dict(rp, call=ci))
+                return
+        if call.get('via_callable') and not r.get('callable_passthrough'):
+            ctx.violation('_get_distance_method(callable) does not return the callable itself', dict(rp, call=ci))
+            return
+        ret = _unhex(r['ret'])
+        if 'ret_at_end' in r and r['ret_at_end'] != r['ret']:
+            ctx.violation('%s: the array it returned was changed by a later call (result aliases shared state)'
+                          % where, dict(rp, call=ci))
+            return
+        tol = tol_for(dtype)
+        oracles = [row_oracle(kernel, dtype, row, ys) for row in rows]
+        if not call.get('overlap'):
+            for i, (oc, v) in enumerate(zip(oracles, ret)):
+                if oc.get('nonfinite') or oc.get('in_range') is False:
+                    continue
+                if not value_matches(oc['kind'], oc['q'], oc['exact'], v, tol, oc.get('div')):
+                    ctx.violation('%s row %d: got %r, exact value is %s%s' % (
+                        where, i, v, 'sqrt of ' if oc['kind'] == 'sqrt' else '', oc['q']),
+                        dict(rp, call=ci, row=i, got=v), key=KNOWN_OVERFLOW_KEY if oc['overflow'] else None)
+                    return
+        else:
+            ctx.tag('overlapping-out-values-not-judged')
+        if o is not None and not (r.get('shares') or r.get('ret_is_out')):
+            ctx.violation('%s did not use the supplied out buffer' % where, dict(rp, call=ci))
+            return
+        # memory after the call: out positions hold the result, every other cell of every memory is unchanged
+        pos, omem = set(), None
+        if o is not None:
+            omem = call['out']['mem']
+            d = descriptor(st[omem], o)
+            pos = set(d['offset'] + i * d['strides'][0] for i in range(n))
+        for name, snap in r['mems'].items():
+            before = mem_snapshot(st[name])
+            for c, (b, aft) in enumerate(zip(before, snap)):
+                if name == omem and c in pos:
+                    continue
+                if b != aft:
+                    ctx.violation('%s changed cell %d of memory %r (%s -> %s), which is not an element of out' % (
+                        where, c, name, b, aft), dict(rp, call=ci))
+                    return
+        if o is not None and not call.get('overlap'):
+            after = _mem_from_snapshot('float64', r['mems'][omem])
+            _, oafter = build_view(call['out'], mem=after)
+            if [_bits(float(v)) for v in np.asarray(oafter, dtype=float).ravel()] != [_bits(v) for v in ret]:
+                ctx.violation('%s: the supplied out buffer does not hold the returned result' % where, dict(rp, call=ci))
+                return
+        # model
+        mr = mres_list[ci] if mres_list else None
+        if mr is None:
+            ctx.tag('script-call-model-skipped')
+            continue
+        if 'ok' not in mr or len(mr['ok']['values']) != n:
+            ctx.disagreement('Model.Dist.call rejects / mis-sizes (%s) %s' % (mr.get('error'), where),
+                             dict(rp, call=ci, model=mr))
+            return
+        for i, (oc, v) in enumerate(zip(oracles, ret)):
+            if oc.get('nonfinite') or oc.get('in_range') is False or oc['overflow']:
+                continue
+            if cell_matches_model(mr['ok']['values'][i], v, oc['exact'], tol, oc.get('div')) is False:
+                ctx.disagreement('Model.Dist.call vs real in %s row %d: model %s real %r' % (
+                    where, i, mr['ok']['values'][i], v), dict(rp, call=ci, row=i))
+                return
+
+
+# ----------------------------------------------------------------------------------------
 # run / replay
 # ----------------------------------------------------------------------------------------
 
 def _vclasses(kernel, dtype):
     if dtype in FLOATS:
-        return ['small', 'quarters', 'mid', 'general']
+        return ['small', 'quarters', 'mid', 'general', 'scale-in-range', 'ulp', 'equal-to-y', 'nonfinite',
+                'scale-out-of-range']
     if dtype in ('bool', 'S1'):
         return ['small' if dtype == 'S1' else 'extreme']
     if kernel == 'hamming':
-        return ['small', 'extreme', 'big-same-sign']
+        return ['small', 'extreme', 'big-same-sign', 'equal-to-y']
     if dtype in ('int8', 'int16'):
-        return ['small', 'extreme']
-    return ['small', 'big-same-sign', 'mid', 'overflow']
+        return ['small', 'extreme', 'equal-to-y']
+    return ['small', 'big-same-sign', 'mid', 'overflow', 'equal-to-y']
 
 
 def _sizes(rng):
@@ -1013,7 +1435,7 @@ def gen_valid_cases(ctx):
         for dt in dts:
             for xl in X_LAYOUTS:
                 combos.append((kernel, dt, xl))
-    reps = ctx.n(4, 10)
+    reps = ctx.n(2, 10)
     k = int(rng.integers(0, 1000))
     for rep in range(reps):
         for kernel, dt, xl in combos:
@@ -1022,7 +1444,7 @@ def gen_valid_cases(ctx):
             n, w = _sizes(rng)
             cases.append(make_valid_case(rng, kernel, dt, xl, Y_LAYOUTS[(k // 3) % 3], OUT_MODES[k % 4],
                                          vcs[(k // 5 + rep) % len(vcs)], n, w, 1 + (k % 16)))
-    extra = ctx.n(1200, 6000)
+    extra = ctx.n(300, 6000)
     for _ in range(extra):
         kernel = ['euclidean', 'manhattan', 'hamming'][int(rng.integers(0, 3))]
         dts = KERNEL_TYPES[kernel]
@@ -1225,6 +1647,109 @@ def valgrind_run(ctx, specs):
                       {'valgrind': True, 'n_cases': len(specs)})
 
 
+def _script_mem(rng, dtype, size, equalish=False):
+    if dtype in FLOATS:
+        vals = [float(v) / 4 for v in rng.integers(-80, 81, size=size)]
+    else:
+        lo, hi = INT_INFO[dtype]
+        vals = [int(v) for v in rng.integers(max(lo, -20), min(hi, 20) + 1, size=size)]
+    return {'dtype': dtype, 'mem': enc_vals(vals, dtype)}
+
+
+def gen_scripts(ctx):
+    """call sequences on shared memories: y aliasing X, overlapping views, zero-stride broadcasts, one out
+    buffer reused with different n, the same argument objects used repeatedly, out overlapping the inputs,
+    and the way cluster code obtains / calls the kernels (_get_distance_method by name and by callable,
+    positional (X, X[i]))"""
+    rng = ctx.rng
+    scripts = []
+    reps = ctx.n(1, 8)
+
+    def thr():
+        return int(rng.integers(1, 17))
+    for _ in range(reps):
+        for kernel in ('euclidean', 'manhattan', 'hamming'):
+            dts = KERNEL_TYPES[kernel]
+            dt = dts[int(rng.integers(0, len(dts)))]
+            n, w = int(rng.integers(3, 30)), int(rng.integers(2, 9))
+            # 1. y is a row of X (what kcenters / kmedoids / assign do: distance_method(traj, traj[i]))
+            order = 'F' if rng.random() < 0.4 else 'C'
+            step = int(rng.choice([1, 2]))
+            N = n * step
+            calls = []
+            for _k in range(3):
+                i = int(rng.integers(0, n))
+                c = {'kernel': kernel, 'threads': thr(),
+                     'X': {'mem': 'A', 'shape': [N, w], 'order': order, 'index': [[0, None, step], [0, None, 1]]},
+                     'y': {'mem': 'A', 'shape': [N, w], 'order': order, 'index': [i * step, [0, None, 1]]},
+                     'out': None}
+                if kernel != 'hamming' and rng.random() < 0.7:
+                    c['via_metric'] = (['euclidean'] if kernel == 'euclidean' else ['manhattan', 'cityblock'])[
+                        int(rng.integers(0, 1 if kernel == 'euclidean' else 2))]
+                elif rng.random() < 0.5:
+                    c['via_callable'] = True
+                calls.append(c)
+            scripts.append({'op': 'script', 'family': 'y-is-row-of-X', 'mems': {'A': _script_mem(rng, dt, N * w)},
+                            'calls': calls})
+            # 2. y is a different-stride view of X's buffer
+            n2 = max(n, 3)
+            scripts.append({'op': 'script', 'family': 'y-strided-view-of-X-buffer',
+                            'mems': {'A': _script_mem(rng, dt, n2 * w + 1)},
+                            'calls': [{'kernel': kernel, 'threads': thr(),
+                                       'X': {'mem': 'A', 'shape': [n2, w], 'order': 'C'},
+                                       'y': {'mem': 'A', 'shape': [n2 * w + 1], 'index': [[1, 2 * w + 1, 2]]},
+                                       'out': None}]})
+            # 3. one out buffer reused across calls with different n (and positionally)
+            L = n + 3
+            ocalls = []
+            for kk, nk in enumerate([n, max(1, n // 2), n - 1, 1, n]):
+                oidx = [[0, nk, 1]] if kk % 2 == 0 else [[L - 1, L - 1 - nk, -1]]
+                ocalls.append({'kernel': kernel, 'threads': thr(), 'out_positional': kk == 2,
+                               'X': {'mem': 'A', 'shape': [n, w], 'order': order, 'index': [[0, nk, 1], [0, None, 1]]},
+                               'y': {'mem': 'Y', 'shape': [w]},
+                               'out': {'mem': 'O', 'shape': [L], 'index': oidx}})
+            scripts.append({'op': 'script', 'family': 'out-reused-with-different-n',
+                            'mems': {'A': _script_mem(rng, dt, n * w), 'Y': _script_mem(rng, dt, w),
+                                     'O': {'dtype': 'float64', 'mem': enc_vals(garbage(rng, L), 'float64')}},
+                            'calls': ocalls})
+            # 4. the very same argument objects, three times
+            base = {'kernel': kernel, 'reuse_objects': True,
+                    'X': {'mem': 'A', 'shape': [n, w], 'order': order}, 'y': {'mem': 'Y', 'shape': [w]},
+                    'out': ({'mem': 'O', 'shape': [n]} if rng.random() < 0.6 else None)}
+            scripts.append({'op': 'script', 'family': 'same-argument-objects-repeated',
+                            'mems': {'A': _script_mem(rng, dt, n * w), 'Y': _script_mem(rng, dt, w),
+                                     'O': {'dtype': 'float64', 'mem': enc_vals(garbage(rng, n), 'float64')}},
+                            'calls': [dict(base, threads=thr()) for _k in range(3)]})
+            # 5. zero-stride broadcast views (read-only)
+            scripts.append({'op': 'script', 'family': 'broadcast-zero-stride',
+                            'mems': {'A': _script_mem(rng, dt, w), 'C': _script_mem(rng, dt, n),
+                                     'Y': _script_mem(rng, dt, w), 'S': _script_mem(rng, dt, 1)},
+                            'calls': [{'kernel': kernel, 'threads': thr(), 'out': None,
+                                       'X': {'mem': 'A', 'shape': [w], 'broadcast_to': [n, w]},
+                                       'y': {'mem': 'Y', 'shape': [w]}},
+                                      {'kernel': kernel, 'threads': thr(), 'out': None,
+                                       'X': {'mem': 'C', 'shape': [n, 1], 'broadcast_to': [n, w]},
+                                       'y': {'mem': 'Y', 'shape': [w]}},
+                                      {'kernel': kernel, 'threads': thr(), 'out': None,
+                                       'X': {'mem': 'C', 'shape': [n, 1], 'broadcast_to': [n, w]},
+                                       'y': {'mem': 'S', 'shape': [1], 'broadcast_to': [w]}}]})
+        # 6. out overlapping the inputs (float64 only; values are unspecified: memory safety and shape only)
+        for kernel in ('euclidean', 'manhattan'):
+            n, w = int(rng.integers(2, 8)), int(rng.integers(8, 12))
+            scripts.append({'op': 'script', 'family': 'out-overlaps-input',
+                            'mems': {'A': _script_mem(rng, 'float64', n * w), 'Y': _script_mem(rng, 'float64', w)},
+                            'calls': [{'kernel': kernel, 'threads': thr(), 'overlap': True,
+                                       'X': {'mem': 'A', 'shape': [n, w]}, 'y': {'mem': 'Y', 'shape': [w]},
+                                       'out': {'mem': 'A', 'shape': [n, w], 'index': [[0, None, 1], 0]}},
+                                      {'kernel': kernel, 'threads': thr(), 'overlap': True,
+                                       'X': {'mem': 'A', 'shape': [n, w]}, 'y': {'mem': 'Y', 'shape': [w]},
+                                       'out': {'mem': 'Y', 'shape': [w], 'index': [[0, n, 1]]}},
+                                      {'kernel': kernel, 'threads': thr(),      # and the data is still usable
+                                       'X': {'mem': 'A', 'shape': [n, w]}, 'y': {'mem': 'Y', 'shape': [w]},
+                                       'out': None}]})
+    return scripts
+
+
 def run(ctx):
     arithmetic_scope(ctx)
     valid = gen_valid_cases(ctx)
@@ -1233,14 +1758,27 @@ def run(ctx):
     metric_specs = [{'op': 'metric', 'metric': m} for m in ('euclidean', 'manhattan', 'cityblock', 'hamming',
                                                              'no-such-metric')]
     thread_specs = [{'op': 'threads', 'threads': t} for t in (1, 3, 16)]
-    specs = valid + bigs + metric_specs + thread_specs
+    scripts = gen_scripts(ctx)
+    specs = valid + bigs + metric_specs + thread_specs + scripts
     results, crash, _ = run_worker(specs)
+    sres = results[len(specs) - len(scripts):]
+    results = results[:len(specs) - len(scripts)]
     mresults, mcrash, _ = run_worker(malformed)
     # model
-    reqs = [model_request(sp) for sp in valid] + [malformed_model_request(sp) for sp in malformed] + \
-        [{'op': 'C13.metric', 'metric': s['metric']} for s in metric_specs] + [{'op': 'C13.arith'}]
+    PLACEHOLDER = {'op': 'C13.arith'}       # keeps the batch aligned where the model has no value (NaN/inf data)
+    vreqs = [model_request(sp) for sp in valid]
+    sreqs = [script_model_requests(sp, wr) for sp, wr in zip(scripts, sres)]
+    flat_s = [r for l in sreqs for r in l]
+    reqs = [r or PLACEHOLDER for r in vreqs] + [malformed_model_request(sp) for sp in malformed] + \
+        [{'op': 'C13.metric', 'metric': s['metric']} for s in metric_specs] + [r or PLACEHOLDER for r in flat_s] + \
+        [{'op': 'C13.arith'}]
     resp = ctx.driver(reqs)
     ctx.note('model_integer_arithmetic', resp.pop().get('ok'))
+    sresp = resp[len(resp) - len(flat_s):]
+    resp = resp[:len(resp) - len(flat_s)]
+    sresp = [m if q is not None else None for m, q in zip(sresp, flat_s)]
+    resp = [(m if (k >= len(vreqs) or vreqs[k] is not None) else None) for k, m in enumerate(resp)]
+    ctx.tag('model-skipped-nonfinite-input', sum(1 for r in vreqs if r is None))
     mv, mm, mmet = resp[:len(valid)], resp[len(valid):len(valid) + len(malformed)], resp[len(valid) + len(malformed):]
     crash_idx = crash['case_index'] if crash is not None else None
     for k, (sp, wr, mr) in enumerate(zip(valid, results[:len(valid)], mv)):
@@ -1271,6 +1809,14 @@ def run(ctx):
                              {'metric': sp['metric']})
     off += len(metric_specs)
     tinfo = [r.get('info') for r in results[off:] if r]
+    k0 = 0
+    for si, (sp, wr, rq) in enumerate(zip(scripts, sres, sreqs)):
+        ml = sresp[k0:k0 + len(rq)]
+        k0 += len(rq)
+        if wr is None and crash_idx is not None and crash_idx != len(specs) - len(scripts) + si:
+            ctx.skip('script not reached after an earlier crash of the kernel process')
+            continue
+        check_script(ctx, sp, wr, ml)
     ctx.note('openmp_thread_limits_observed', tinfo)
     for k, (sp, wr, mr) in enumerate(zip(malformed, mresults, mm)):
         if wr is None and mcrash is not None and mcrash['case_index'] != k:
@@ -1302,6 +1848,13 @@ def replay(ctx, case):
         if m is None or m['no_overflow'] != (not o['overflow']):
             ctx.disagreement('Model.Dist.termInt / NoOverflow vs python classification', case)
         return
+    if case.get('script'):
+        sp = {k: case[k] for k in ('op', 'family', 'mems', 'calls')}
+        wr = run_worker([sp])[0][0]
+        rq = script_model_requests(sp, wr)
+        ml = ctx.driver([r or {'op': 'C13.arith'} for r in rq])
+        check_script(ctx, sp, wr, [m if q is not None else None for m, q in zip(ml, rq)])
+        return
     if case.get('big'):
         wr = run_worker([case])[0][0]
         check_big(ctx, case, wr)
@@ -1315,7 +1868,8 @@ def replay(ctx, case):
     sp['sched'] = sp.get('sched') or []
     sp['tags'] = sp.get('tags') or {}
     wr = run_worker([sp])[0][0]
-    mr = ctx.driver([model_request(sp)])[0]
+    rq = model_request(sp)
+    mr = ctx.driver([rq])[0] if rq is not None else None
     check_valid(ctx, sp, wr, mr)
 
 
